@@ -384,6 +384,46 @@ def eval_ref(w, key, T, deterministic, kind="scan", Kget=None):
     raise NotImplementedError
 
 
+def keys_fresh(ck, oid, by_role, tr):
+    """`the mean return of the MDP under the policy`: the policy's and the environment's randomness are independent, i.e. no PRNG key is handed to two
+    consumers (a key used twice yields the same draw twice).  Decided on the key terms of the symbolic run, one obligation per pair of consumer roles: the
+    keys handed to role A and to role B (all steps) are different terms; under the free key algebra different terms are different keys.  A coincidence is
+    confirmed on the real function with a recording world (same key data reaching both consumers) before it is reported."""
+    roles = list(by_role)
+    clash = {}
+    for a_i, A_ in enumerate(roles):
+        for B_ in roles[a_i:]:
+            for ta, ka in enumerate(by_role[A_]):
+                for tb, kb in enumerate(by_role[B_]):
+                    if (A_ != B_ or ta < tb) and ka.get_id() == kb.get_id():
+                        clash.setdefault((A_, B_), []).append(f"{A_}[{ta}] and {B_}[{tb}] receive {ka}")
+    real = None
+    if clash:
+        from jaxsmt.uf import GenericWorld
+        real = set()
+        for wseed in range(4, 12):          # several generic worlds: an episode of a while-rollout may end before every component was called
+            w = GenericWorld(seed=wseed, p_true=0.1)
+            rng = np.random.default_rng(ck.seed + wseed)
+            vals = [concrete.random_leaf(av, rng, nm, lambda n, av_, r: (jnp.full(av_.shape, 3, av_.dtype) if n.endswith("max_episode_steps") else None)) for nm, av in zip(tr.in_names, tr.in_avals)]
+            concrete.run_real(tr, vals, w)
+            used = {}
+            for name, ops, _ in w.calls:
+                for o_ in ops:
+                    a = np.asarray(o_)
+                    if a.dtype == np.uint32 and a.shape == (2,):
+                        used.setdefault(a.tobytes(), set()).add(name.split("_")[0])
+            real |= {frozenset(v) for v in used.values() if len(v) > 1}
+    for a_i, A_ in enumerate(roles):
+        for B_ in roles[a_i:]:
+            pid = f"{oid},roles={A_}~{B_}"
+            if (A_, B_) not in clash:
+                ck.fact(pid, True, f"keys handed to {A_} ({len(by_role[A_])}) and {B_} ({len(by_role[B_])}) are different terms")
+            elif A_ == B_ or any({A_, B_} <= set(x) or {A_.replace('PI', 'PI'), B_} <= set(x) for x in real):
+                ck.fact(pid, False, f"{clash[(A_, B_)][:3]}; real run (recording world): one key reached the consumers {sorted(map(sorted, real))[:4]}")
+            else:
+                ck.skip(pid, f"key terms coincide symbolically ({clash[(A_, B_)][:2]}) but the real run did not show one key reaching both consumers")
+
+
 def check_eval(ck):
     from lerax.benchmark import average_reward, rollout_scan, rollout_while
     for deterministic in (False, True):
@@ -430,6 +470,7 @@ def check_eval(ck):
                 c = [o.ite(done, x, y) for x, y in zip(c, c2)]
                 h = np.array([o.ite(done, x, y) for x, y in zip(h, h2)], dtype=object)
                 done = o.lor(done, dn)
+            keys_fresh(ck, f"eval.scan.keys_used_once@{name}", {"Init": kI, "PReset": kP, "O": kO, "PI": kA, "T": kT, "R": kR, "Term": kTerm}, tr)
             A = concrete.key_axioms(kO + kT + kR + kTerm + kA + [S["key"][()]]) + [find(S, "max_episode_steps")[()] >= 1]
             ck.prove(f"eval.scan.return@{name}", A, eq_elem(total, acc), replay=lambda res, tr=tr, S=S, it=it, acc=acc: concrete.replay_outputs(tr, S, res, uf_apps=it.uf_apps, oracle={tr.out_names[0]: arr0(acc)}))
     # rollout_while: unrolled to a stated bound with an unwinding obligation (episodes of at most `bound` steps)
@@ -463,6 +504,7 @@ def check_eval(ck):
             c = [o.ite(running, y, x) for x, y in zip(c, c2)]
             h = np.array([o.ite(running, y, x) for x, y in zip(h, h2)], dtype=object)
         still = o.land(running, o.lnot(o.lor(w.env.terminal(s, kTerm[bound]), w.env.truncate(s, c))))
+        keys_fresh(ck, f"eval.while.keys_used_once@unwind={bound}", {"Init": kI, "PReset": kP, "O": kO, "PI": kA, "T": kT, "R": kR, "Term": kTerm}, tr)
         A = concrete.key_axioms(kO + kT + kR + kTerm + kA + [S["key"][()]]) + [find(S, "max_episode_steps")[()] >= 1] + [o.lnot(still)]
         ck.assume_note(f"rollout_while: episodes of at most {bound} steps (loop unrolled {bound} times; the unwinding condition is assumed false and the implementation's own unwinding condition is shown to coincide with it)")
         ck.prove(f"eval.while.return@unwind={bound}", A, eq_elem(total, acc), replay=lambda res: concrete.replay_outputs(tr, S, res, uf_apps=it.uf_apps, oracle={tr.out_names[0]: arr0(acc)}))
